@@ -120,6 +120,8 @@ module Z :
 
   val modulo : z -> z -> z
 
+  val odd : z -> bool
+
   val div2 : z -> z
 
   val shiftl : z -> z -> z
@@ -159,3 +161,14 @@ type pow2_path =
 val pow2 : z -> pow2_path
 
 val pow2_value : z -> z option
+
+type pres =
+| PVal of z
+| PUB
+| PFuel
+
+val mulc : z -> bool -> z -> z -> z option
+
+val pow_loop_ck : bool -> nat -> z -> bool -> z -> z -> z -> pres
+
+val int_pow_ck : bool -> z -> bool -> z -> z -> pres
